@@ -163,3 +163,40 @@ def flush_keys(self: Obj("AxolotlControlLayer"), signed_prekey: Opaque("signedpr
 @loop(CTRL, "AxolotlControlLayer.flush_keys", 1)
 def flush_keys_loop(self, prekeys, preKeysDict: DictObjObj):
     invariant(n_events("_sendIq") == 0 and n_events("manager.set_prekeys_as_sent") == 0 and n_events("SetKeysIq") == 0)
+
+
+# ---- refill: when fewer than 10 one-time keys remain (or on request), fresh keys whose ids continue after the highest stored id -----------
+extern("*.loadPreKeys", event="store.loadPreKeys", returns=ListObj("prekey"), raises=True)
+extern("field.loadMaxPreKeyId", event="prekeystore.loadMaxPreKeyId", returns=Int, raises=True)
+extern("axolotl.util.keyhelper.KeyHelper.generatePreKeys", event="generatePreKeys", returns=ListObj("prekey"), raises=True)
+extern("*.storePreKey", event="store.storePreKey", raises=True, readonly=True)
+event_sort("store.storePreKey", "obj")
+event_sort("generatePreKeys", "obj")
+
+
+@contract(MGR, "AxolotlManager.level_prekeys")
+def level_prekeys(self: Obj("AxolotlManager"), force: Bool) -> ListObj("prekey"):
+    ensures(n_events("store.loadPreKeys") == 1 and n_events("store.setAsSent") == 0)
+    # enough keys left and no request: nothing is generated, nothing stored, nothing to upload
+    ensures(implies(not force and len(event_result("store.loadPreKeys", 0)) >= 10,
+                    n_events("generatePreKeys") == 0 and n_events("store.storePreKey") == 0 and len(result) == 0))
+    # otherwise ONE batch is generated, its ids starting right after the highest id ever stored; every generated key is stored exactly
+    # once, under its own id, in order; the batch is returned for upload
+    ensures(implies(force or len(event_result("store.loadPreKeys", 0)) < 10,
+                    n_events("generatePreKeys") == 1 and n_events("prekeystore.loadMaxPreKeyId") == 1
+                    and event_arg("generatePreKeys", 0, 0) == event_result("prekeystore.loadMaxPreKeyId", 0) + 1
+                    and event_arg("generatePreKeys", 0, 1) > 0
+                    and same_obj(result, event_result("generatePreKeys", 0))
+                    and n_events("store.storePreKey") == len(event_result("generatePreKeys", 0))))
+    ensures(forall(range(0, n_events("store.storePreKey")),
+                   lambda i: same_obj(event_arg("store.storePreKey", i, 2), event_result("generatePreKeys", 0)[i])
+                   and event_arg("store.storePreKey", i, 1) == getter("prekey.getId", event_result("generatePreKeys", 0)[i])))
+    propagates("*")
+
+
+@loop(MGR, "AxolotlManager.level_prekeys", 1)
+def level_loop(self, force, prekeys):
+    invariant(n_events("store.storePreKey") == loop_k() and n_events("generatePreKeys") == 1 and n_events("store.loadPreKeys") == 1
+              and n_events("prekeystore.loadMaxPreKeyId") == 1 and n_events("store.setAsSent") == 0)
+    invariant(forall(range(0, loop_k()), lambda i: same_obj(event_arg("store.storePreKey", i, 2), prekeys[i])
+                     and event_arg("store.storePreKey", i, 1) == getter("prekey.getId", prekeys[i])))
